@@ -1,6 +1,6 @@
 (* the two description classes of C12_description_roundtrip_partial / _block
    satisfy [desc_ok] (Proofs/SdlTextDescProofs.v) at depth 0 *)
-From PyGql Require Import Lang.PrinterModel Spec.PrinterSpec Spec.LexSpec.
+From PyGql Require Import Lang.PrinterModel Spec.PrinterSpec Spec.LexSpec Proofs.PrinterProofs.
 From PyGql Require Import Schema.SdlSchema Schema.SdlBuild Schema.SdlPrint Spec.SdlRoundtripSpec
                           Proofs.SdlPrintProofs Proofs.SdlDescLexProofs Proofs.SdlTextSchemaProofs Proofs.SdlTextDescProofs
                           Proofs.SdlMemberDescProofs.
@@ -23,7 +23,7 @@ Proof.
   intros Hp Hpl Hb Hl Hlast Hsc.
   destruct (description_roundtrip_single_line o desc 0 Hpl Hb Hl) as [Hbody Hval]; [rewrite ind0; cbn [length]; lia|exact Hlast|].
   cbn [desc_ok]. rewrite Hbody in *. rewrite (unescape_triple_plain _ Hpl) in Hval.
-  split; [destruct desc; [discriminate|discriminate]|]. split; [exact Hp|]. split; [|exact Hval].
+  split; [destruct desc; [discriminate|discriminate]|]. split; [exact Hp|]. apply noquote_body_ok; [|exact Hval].
   split; [|split; [intros _; exact Hlast|exact Hsc]].
   eapply forallb_Forall; [|exact Hpl]. intros c Hc ->. discriminate.
 Qed.
@@ -119,7 +119,7 @@ Proof.
   { apply unescape_noquote. apply forallb_forall. intros c Hc. rewrite Forall_forall in Hnq. specialize (Hnq c Hc).
     apply Bool.negb_true_iff. apply N.eqb_neq. exact Hnq. }
   rewrite Hunesc in Hval.
-  split; [exact Hne|]. split; [exact Hp|]. split; [|exact Hval].
+  split; [exact Hne|]. split; [exact Hp|]. apply noquote_body_ok; [|exact Hval].
   split; [exact Hnq|]. split.
   - intros _. rewrite Hbody.
     assert (Hj : forall xs : list str, join nl (xs ++ [[]]) = join nl xs ++ nl \/ xs = []).
@@ -156,7 +156,7 @@ Proof.
   intros Hp Hpl Hb Hl Hw Hlast Hsc.
   destruct (description_roundtrip_single_line o desc depth Hpl Hb Hl Hw Hlast) as [Hbody Hval].
   cbn [desc_okd]. rewrite Hbody in *. rewrite (unescape_triple_plain _ Hpl) in Hval.
-  split; [destruct desc; [discriminate|discriminate]|]. split; [exact Hp|]. split; [|exact Hval].
+  split; [destruct desc; [discriminate|discriminate]|]. split; [exact Hp|]. apply noquote_body_ok; [|exact Hval].
   split; [|split; [intros _; exact Hlast|exact Hsc]].
   eapply forallb_Forall; [|exact Hpl]. intros c Hc ->. discriminate.
 Qed.
@@ -196,7 +196,7 @@ Proof.
   { apply unescape_noquote. apply forallb_forall. intros c Hc. rewrite Forall_forall in Hnq. specialize (Hnq c Hc).
     apply Bool.negb_true_iff. apply N.eqb_neq. exact Hnq. }
   rewrite Hunesc in Hval.
-  split; [exact Hne|]. split; [exact Hp|]. split; [|exact Hval].
+  split; [exact Hne|]. split; [exact Hp|]. apply noquote_body_ok; [|exact Hval].
   split; [exact Hnq|]. split.
   - intros _. rewrite Hbody. subst lines indent.
     assert (Hj : forall (xs : list str) e, xs <> [] -> join nl (xs ++ [e]) = join nl xs ++ nl ++ e).
@@ -219,4 +219,340 @@ Proof.
   - apply Forall_forall. intros c Hc. destruct (Hin c Hc) as [->|[Hi|(l & Hl & Hcl)]]; [right; left; reflexivity| |].
     + destruct (Hwsc c Hi) as [->| ->]; unfold SourceCharacter; [right; right; right; lia|left; reflexivity].
     + rewrite Forall_forall in Hsc. apply Hsc. eapply in_split_nl; eassumption.
+Qed.
+
+(* ---- one-line descriptions with double quotes ------------------------------ *)
+(* one line, shorter than 70, not ending with a double quote or a backslash:
+   printed with its triple quotes escaped, read back unchanged *)
+Definition line_char (c : N) : bool := negb ((c =? 10)%N || (c =? 13)%N).
+
+Lemma split_nl_line s : forallb line_char s = true -> split_nl s = [s].
+Proof.
+  induction s as [|c s IH]; simpl; [reflexivity|].
+  intros H; apply andb_prop in H; destruct H as [Hc Hs].
+  rewrite (IH Hs). unfold line_char in Hc.
+  destruct (c =? NLc)%N eqn:E; [|reflexivity].
+  unfold NLc in E; rewrite E in Hc; discriminate.
+Qed.
+
+Lemma split_lines_line s : forallb line_char s = true -> SdlRoundtripSpec.split_lines s = [s].
+Proof.
+  induction s as [|c s IH]; simpl; [reflexivity|].
+  intros H; apply andb_prop in H; destruct H as [Hc Hs].
+  rewrite (IH Hs). unfold line_char in Hc.
+  destruct (c =? 10)%N eqn:E1; [simpl in Hc; discriminate|].
+  destruct (c =? 13)%N eqn:E2; [simpl in Hc; discriminate|].
+  assert (c <> 13%N) by (apply N.eqb_neq; assumption).
+  destruct c as [|p]; [reflexivity|].
+  do 4 (destruct p as [p|p|]; try reflexivity); congruence.
+Qed.
+
+Lemma ends_with_qb_last s : last s 0%N <> 34%N -> last s 0%N <> 92%N -> ends_with_qb s = false.
+Proof.
+  induction s as [|c s IH]; intros H34 H92; [reflexivity|].
+  destruct s as [|c2 s2].
+  - cbn [ends_with_qb last] in *. apply N.eqb_neq in H34, H92. rewrite H34, H92. reflexivity.
+  - change (ends_with_qb (c :: c2 :: s2)) with (ends_with_qb (c2 :: s2)). apply IH; assumption.
+Qed.
+
+Lemma single_line_quotes o desc depth :
+  forallb line_char desc = true -> SdlRoundtripSpec.blank desc = false ->
+  length desc < 70 -> length desc <= 120 - length (ind o depth) ->
+  last desc 0%N <> 34%N -> last desc 0%N <> 92%N ->
+  description_body o desc depth = escape_triple desc
+  /\ SdlRoundtripSpec.block_string_value desc = desc.
+Proof.
+  intros Hp Hb Hl Hw H34 H92. split.
+  - unfold description_body. rewrite (split_nl_line _ Hp).
+    remember (120 - length (ind o depth)) as m eqn:Hm.
+    assert (Hw' : Nat.leb (length desc) m = true) by (apply Nat.leb_le; lia).
+    assert (Hl' : Nat.ltb (length desc) 70 = true) by (apply Nat.ltb_lt; assumption).
+    unfold wrapped_lines. cbn [flat_map].
+    match goal with |- context [if ?b then [desc] else _] =>
+      replace b with true by (symmetry; exact Hw') end.
+    cbn [app length Nat.eqb].
+    match goal with |- context [andb (andb true ?b) _] =>
+      replace b with true by (symmetry; exact Hl') end.
+    rewrite (ends_with_qb_last _ H34 H92). reflexivity.
+  - unfold SdlRoundtripSpec.block_string_value. rewrite (split_lines_line _ Hp).
+    cbn [common_indent drop_while_blank rev app]. rewrite Hb.
+    cbn [rev app drop_while_blank]. rewrite Hb. cbn [rev app join]. reflexivity.
+Qed.
+
+Theorem desc_okd_single_line_quotes o depth desc :
+  po_descriptions o = true ->
+  forallb line_char desc = true -> SdlRoundtripSpec.blank desc = false -> length desc < 70 ->
+  length desc <= 120 - length (ind o depth) ->
+  last desc 0%N <> 34%N -> last desc 0%N <> 92%N -> Forall SourceCharacter desc ->
+  desc_okd o depth (Some desc).
+Proof.
+  intros Hp Hpl Hb Hl Hw H34 H92 Hsc.
+  destruct (single_line_quotes o desc depth Hpl Hb Hl Hw H34 H92) as [Hbody Hval].
+  assert (Hne : desc <> []) by (destruct desc; [discriminate|discriminate]).
+  cbn [desc_okd]. rewrite Hbody.
+  split; [exact Hne|]. split; [exact Hp|]. exists desc. split; [|exact Hval].
+  apply escaped_scan; assumption.
+Qed.
+
+Theorem desc_ok_single_line_quotes o desc :
+  po_descriptions o = true ->
+  forallb line_char desc = true -> SdlRoundtripSpec.blank desc = false -> length desc < 70 ->
+  last desc 0%N <> 34%N -> last desc 0%N <> 92%N -> Forall SourceCharacter desc ->
+  desc_ok o (Some desc).
+Proof.
+  intros Hp Hpl Hb Hl H34 H92 Hsc.
+  destruct (single_line_quotes o desc 0 Hpl Hb Hl) as [Hbody Hval]; [rewrite ind0; cbn [length]; lia|exact H34|exact H92|].
+  assert (Hne : desc <> []) by (destruct desc; [discriminate|discriminate]).
+  cbn [desc_ok]. rewrite Hbody.
+  split; [exact Hne|]. split; [exact Hp|]. exists desc. split; [|exact Hval].
+  apply escaped_scan; assumption.
+Qed.
+
+(* ---- block layout with double quotes ---------------------------------------- *)
+Definition qclean_line (l : str) : bool :=
+  forallb nobreak l && match l with c :: _ => negb (py_space c) | [] => true end.
+
+Lemma block_lines_tail_esc indent ls : forall i, 1 <= i ->
+  block_lines false indent i ls = map (fun l => indent ++ escape_triple l) ls.
+Proof.
+  induction ls as [|l ls IH]; intros i Hi; [reflexivity|].
+  cbn [block_lines map]. destruct i as [|i]; [lia|]. cbn [Nat.eqb andb negb orb app].
+  rewrite (IH (S (S i))) by lia. reflexivity.
+Qed.
+
+Lemma block_body_form_q o desc depth :
+  let lines := split_nl desc in
+  let indent := ind o depth in
+  forallb qclean_line lines = true ->
+  forallb (fun l => Nat.leb (length l) (120 - length indent)) lines = true ->
+  (2 <= length lines \/ 70 <= length (hd [] lines) \/ ends_with_qb (hd [] lines) = true) ->
+  description_body o desc depth = join nl ([] :: map (fun l => indent ++ escape_triple l) lines ++ [indent]).
+Proof.
+  intros lines indent Hclean Hlen Hblock.
+  destruct lines as [|l0 rest] eqn:Hlines; [exfalso; apply (split_nl_nonempty desc); exact Hlines|].
+  cbn [hd] in Hblock.
+  assert (Hl0 : qclean_line l0 = true) by (cbn [forallb] in Hclean; apply andb_prop in Hclean; tauto).
+  unfold description_body. fold indent. fold lines. rewrite Hlines.
+  rewrite (wrapped_id _ _ Hlen). cbn [hd].
+  assert (Hcond : Nat.eqb (length (l0 :: rest)) 1 && Nat.ltb (length l0) 70 && negb (ends_with_qb l0) = false).
+  { destruct Hblock as [H2|[H70|Hqb]].
+    - destruct rest; [simpl in H2; lia|reflexivity].
+    - replace (Nat.ltb (length l0) 70) with false by (symmetry; apply Nat.ltb_ge; exact H70).
+      rewrite Bool.andb_false_r. reflexivity.
+    - rewrite Hqb. rewrite Bool.andb_false_r. reflexivity. }
+  rewrite Hcond.
+  assert (Hhlw : match l0 with c :: _ => py_space c | [] => false end = false).
+  { unfold qclean_line in Hl0. apply andb_prop in Hl0; destruct Hl0 as [_ H]. destruct l0; [reflexivity|].
+    apply Bool.negb_true_iff in H; exact H. }
+  rewrite Hhlw. cbn [block_lines Nat.eqb andb negb orb].
+  rewrite (block_lines_tail_esc indent rest 1 ltac:(lia)).
+  cbn [map]. apply join_block.
+Qed.
+
+Local Open Scope N_scope.
+Lemma lead_q_app0 (w y : str) : lead_q y = 0%nat -> lead_q (w ++ y) = lead_q w.
+Proof.
+  intros Hy. induction w as [|a w IH]; cbn [app lead_q]; [exact Hy|]. rewrite IH. reflexivity.
+Qed.
+
+Lemma escape3_app : forall n (w y : str), (length w <= n)%nat -> lead_q y = 0%nat ->
+  escape3 (w ++ y) = escape3 w ++ escape3 y.
+Proof.
+  induction n as [|n IH]; intros w y Hn Hy.
+  - destruct w; [reflexivity|simpl in Hn; lia].
+  - destruct w as [|a r1]; [reflexivity|].
+    destruct (le_lt_dec 3 (lead_q (a :: r1))) as [G|G].
+    + apply lead_q_ge3 in G. destruct G as [r3 E]. rewrite E.
+      assert (Hl : (length r3 <= n)%nat).
+      { clear -E Hn. inversion E; subst. cbn [length] in Hn. clear E. apply le_S_n in Hn. apply Nat.le_trans with (2 := Hn). apply Nat.le_trans with (S (length r3)); apply Nat.le_succ_diag_r. }
+      pose proof (IH r3 y Hl Hy) as H3.
+      change (92 :: 34 :: 34 :: 34 :: escape3 (r3 ++ y) = 92 :: 34 :: 34 :: 34 :: (escape3 r3 ++ escape3 y)).
+      f_equal. f_equal. f_equal. f_equal. exact H3.
+    + assert (G' : (lead_q (a :: (r1 ++ y)) < 3)%nat).
+      { pose proof (lead_q_app0 (a :: r1) y Hy) as Hq. cbn [app] in Hq. rewrite Hq. exact G. }
+      assert (Hl : (length r1 <= n)%nat) by (simpl in Hn; lia).
+      etransitivity; [exact (esc_cons a (r1 ++ y) G')|].
+      etransitivity; [|symmetry; exact (f_equal (fun l => l ++ escape3 y) (esc_cons a r1 G))].
+      cbn [app]. f_equal. exact (IH r1 y Hl Hy).
+Qed.
+
+Lemma lead_q_nl (y : str) : lead_q (nl ++ y) = 0%nat.
+Proof. reflexivity. Qed.
+
+Lemma esc_nl (y : str) : escape3 (nl ++ y) = nl ++ escape3 y.
+Proof. exact (esc_nonq 10 y ltac:(discriminate)). Qed.
+
+(* escaping the indented lines = indenting the escaped lines *)
+Lemma esc_join_lines (indent : str) (lines : list str) :
+  all_ws indent ->
+  escape3 (join nl (map (fun l => indent ++ l) lines ++ [indent]))
+  = join nl (map (fun l => indent ++ escape3 l) lines ++ [indent]).
+Proof.
+  intros Hws. induction lines as [|l ls IH].
+  - cbn [map app join]. rewrite <- (app_nil_r indent) at 1. rewrite (esc_ws indent [] Hws). rewrite esc_nil. apply app_nil_r.
+  - cbn [map app].
+    rewrite !join_cons by (destruct ls; discriminate).
+    rewrite <- app_assoc. rewrite (esc_ws indent _ Hws).
+    rewrite (escape3_app _ l _ (le_n _) (lead_q_nl _)). rewrite esc_nl. rewrite IH.
+    rewrite <- !app_assoc. reflexivity.
+Qed.
+Local Close Scope N_scope.
+
+Definition raw_block (indent : str) (lines : list str) : str :=
+  join nl ([] :: map (fun l => indent ++ l) lines ++ [indent]).
+
+Lemma esc_raw_block (indent : str) (lines : list str) :
+  all_ws indent ->
+  escape_triple (raw_block indent lines)
+  = join nl ([] :: map (fun l => indent ++ escape_triple l) lines ++ [indent]).
+Proof.
+  intros Hws. unfold raw_block.
+  rewrite (escape_triple_escape3 _ _ (le_n _)).
+  rewrite !join_cons by (destruct lines; discriminate). cbn [app].
+  change (10%N :: join nl (map (fun l : str => indent ++ l) lines ++ [indent]))
+    with (nl ++ join nl (map (fun l : str => indent ++ l) lines ++ [indent])).
+  rewrite esc_nl. rewrite (esc_join_lines indent lines Hws).
+  rewrite (map_ext (fun l => indent ++ escape_triple l) (fun l => indent ++ escape3 l)); [reflexivity|].
+  intros l. rewrite (escape_triple_escape3 _ l (le_n _)). reflexivity.
+Qed.
+
+Lemma qclean_leading l : qclean_line l = true -> blank l = false -> leading_ws l = 0.
+Proof.
+  unfold qclean_line. intros H Hb. apply andb_prop in H; destruct H as [_ Hc].
+  destruct l as [|c r]; [discriminate|]. cbn [leading_ws].
+  destruct (is_ws c) eqn:Hw; [|reflexivity].
+  exfalso. unfold is_ws in Hw. apply Bool.negb_true_iff in Hc. unfold py_space in Hc.
+  apply Bool.orb_true_iff in Hw; destruct Hw as [Hw|Hw]; apply N.eqb_eq in Hw; subst c; discriminate.
+Qed.
+
+Lemma blank_nil_false_of_qclean l : qclean_line l = true -> blank l = true -> l = [].
+Proof.
+  unfold qclean_line. intros H Hb. apply andb_prop in H; destruct H as [_ Hc].
+  destruct l as [|c r]; [reflexivity|]. cbn [blank forallb] in Hb. apply andb_prop in Hb; destruct Hb as [Hw _].
+  exfalso. apply Bool.negb_true_iff in Hc. unfold is_ws in Hw. unfold py_space in Hc.
+  apply Bool.orb_true_iff in Hw; destruct Hw as [Hw|Hw]; apply N.eqb_eq in Hw; subst c; discriminate.
+Qed.
+
+(* BlockStringValue of the indented lines is the description *)
+Lemma raw_block_value desc (indent : str) :
+  let lines := split_nl desc in
+  blank indent = true ->
+  forallb qclean_line lines = true ->
+  hd [] lines <> [] -> last lines [] <> [] ->
+  block_string_value (raw_block indent lines) = desc.
+Proof.
+  intros lines Hind Hclean Hfirst Hlast.
+  assert (Hchars : forallb (forallb nobreak) lines = true).
+  { apply forallb_forall; intros l Hl. rewrite forallb_forall in Hclean. specialize (Hclean l Hl).
+    unfold qclean_line in Hclean. apply andb_prop in Hclean; tauto. }
+  destruct lines as [|l0 rest] eqn:Hlines; [exfalso; apply (split_nl_nonempty desc); exact Hlines|].
+  cbn [hd] in Hfirst.
+  assert (Hl0 : qclean_line l0 = true) by (cbn [forallb] in Hclean; apply andb_prop in Hclean; tauto).
+  unfold raw_block.
+  set (segs := [] :: map (fun l => indent ++ l) (l0 :: rest) ++ [indent]).
+  assert (Hws : forall c, is_ws c = true -> nobreak c = true).
+  { intros c Hc. unfold is_ws in Hc. apply Bool.orb_true_iff in Hc; destruct Hc as [Hc|Hc];
+      apply N.eqb_eq in Hc; subst c; reflexivity. }
+  assert (Hsegs : forallb (forallb nobreak) segs = true).
+  { unfold segs. cbn [forallb andb]. rewrite forallb_app. apply andb_true_intro; split.
+    - apply forallb_forall; intros x Hx. apply in_map_iff in Hx. destruct Hx as [l [<- Hl]].
+      rewrite forallb_app. apply andb_true_intro; split.
+      + apply forallb_forall; intros c Hc. apply Hws. unfold blank in Hind. rewrite forallb_forall in Hind. auto.
+      + rewrite forallb_forall in Hchars. apply Hchars; exact Hl.
+    - cbn [forallb]. rewrite Bool.andb_true_r.
+      apply forallb_forall; intros c Hc. apply Hws. unfold blank in Hind. rewrite forallb_forall in Hind. auto. }
+  unfold block_string_value. rewrite split_lines_join.
+  2:{ discriminate. }
+  2:{ exact Hsegs. }
+  unfold segs.
+  assert (Hl0b : blank l0 = false).
+  { destruct (blank l0) eqn:Hb; [|reflexivity]. exfalso; apply Hfirst. apply blank_nil_false_of_qclean; assumption. }
+  rewrite (common_indent_uniform (length indent)).
+  2:{ intros l Hl Hb. apply in_app_or in Hl. destruct Hl as [Hl|[<-|[]]]; [|congruence].
+      apply in_map_iff in Hl. destruct Hl as [x [<- Hx]].
+      rewrite blank_app, Hind in Hb. cbn [andb] in Hb.
+      rewrite (leading_ws_indent _ _ Hind). rewrite forallb_forall in Hclean.
+      rewrite (qclean_leading x (Hclean x Hx) Hb). lia. }
+  2:{ exists (indent ++ l0). split; [apply in_or_app; left; left; reflexivity|].
+      rewrite blank_app, Hind, Hl0b. reflexivity. }
+  rewrite map_app, skipn_indent. cbn [map].
+  replace (skipn (length indent) indent) with (@nil char)
+    by (symmetry; rewrite <- (app_nil_r indent) at 2; apply skipn_app_exact).
+  cbn [drop_while_blank blank forallb app]. rewrite Hl0b.
+  change (l0 :: rest ++ [[]]) with ((l0 :: rest) ++ [[]]). rewrite rev_app_distr. cbn [rev app].
+  cbn [drop_while_blank blank forallb].
+  assert (Hrev : drop_while_blank (rev (l0 :: rest)) = rev (l0 :: rest)).
+  { apply drop_rev_last; [discriminate|].
+    destruct (blank (last (l0 :: rest) [])) eqn:Hb; [|reflexivity].
+    exfalso; apply Hlast. apply blank_nil_false_of_qclean; [|exact Hb].
+    rewrite forallb_forall in Hclean. apply Hclean.
+    assert (Hne : l0 :: rest <> []) by discriminate.
+    rewrite (app_removelast_last [] Hne) at 2. apply in_or_app; right; left; reflexivity. }
+  cbn [rev] in Hrev. rewrite Hrev. change (rev rest ++ [l0]) with (rev (l0 :: rest)).
+  rewrite rev_involutive. rewrite <- Hlines. unfold lines. apply join_split_nl.
+Qed.
+
+Lemma last_nl_indent (A indent : str) : all_ws indent ->
+  A ++ nl ++ indent <> [] /\ last (A ++ nl ++ indent) 0%N <> 34%N /\ last (A ++ nl ++ indent) 0%N <> 92%N.
+Proof.
+  intros Hws. split; [destruct A; discriminate|].
+  induction indent as [|x ind' _] using rev_ind.
+  - rewrite app_nil_r. change nl with [10%N]. rewrite last_last. split; discriminate.
+  - rewrite !app_assoc. rewrite last_last.
+    unfold all_ws in Hws. rewrite forallb_app in Hws. apply andb_prop in Hws. destruct Hws as [_ Hx].
+    cbn [forallb] in Hx. rewrite Bool.andb_true_r in Hx. apply ws_facts in Hx. tauto.
+Qed.
+
+Theorem desc_okd_block_quotes o depth desc :
+  let lines := split_nl desc in
+  let indent := ind o depth in
+  po_descriptions o = true -> desc <> [] -> all_ws indent ->
+  forallb qclean_line lines = true ->
+  forallb (fun l => Nat.leb (length l) (120 - length indent)) lines = true ->
+  hd [] lines <> [] -> last lines [] <> [] ->
+  (2 <= length lines \/ 70 <= length (hd [] lines) \/ ends_with_qb (hd [] lines) = true) ->
+  Forall SourceCharacter desc ->
+  desc_okd o depth (Some desc).
+Proof.
+  intros lines indent Hp Hne Hws Hclean Hlen Hfirst Hlast Hblock Hsc.
+  pose proof (block_body_form_q o desc depth Hclean Hlen Hblock) as Hbody. fold lines indent in Hbody.
+  assert (Hblank : SdlRoundtripSpec.blank indent = true) by exact Hws.
+  pose proof (raw_block_value desc indent Hblank Hclean Hfirst Hlast) as Hval. fold lines in Hval.
+  rewrite <- (esc_raw_block indent lines Hws) in Hbody.
+  cbn [desc_okd]. rewrite Hbody.
+  split; [exact Hne|]. split; [exact Hp|]. exists (raw_block indent lines). split; [|exact Hval].
+  assert (Hraw : raw_block indent lines
+                 = join nl ([] :: map (fun l => indent ++ l) lines) ++ nl ++ indent).
+  { unfold raw_block. change ([] :: map (fun l => indent ++ l) lines ++ [indent])
+      with (([] :: map (fun l : str => indent ++ l) lines) ++ [indent]).
+    apply join_snoc. discriminate. }
+  destruct (last_nl_indent (join nl ([] :: map (fun l => indent ++ l) lines)) indent Hws) as (Hn & H34 & H92).
+  rewrite <- Hraw in Hn, H34, H92.
+  apply escaped_scan; [exact Hn|exact H34|exact H92|].
+  apply Forall_forall. intros c Hc. unfold raw_block in Hc. apply in_join_nl in Hc.
+  destruct Hc as [->|(x & Hx & Hc)]; [right; left; reflexivity|].
+  assert (Hwsc : forall c, In c indent -> SourceCharacter c).
+  { intros c' Hc'. unfold all_ws in Hws. rewrite forallb_forall in Hws. specialize (Hws c' Hc').
+    unfold PrinterSpec.is_ws in Hws. apply Bool.orb_true_iff in Hws. unfold SourceCharacter.
+    destruct Hws as [H|H]; apply N.eqb_eq in H; rewrite H; lia. }
+  destruct Hx as [<-|Hx]; [destruct Hc|]. apply in_app_or in Hx. destruct Hx as [Hx|[<-|[]]]; [|apply Hwsc; exact Hc].
+  apply in_map_iff in Hx. destruct Hx as (l & <- & Hl). apply in_app_or in Hc.
+  destruct Hc as [Hc|Hc]; [apply Hwsc; exact Hc|].
+  rewrite Forall_forall in Hsc. apply Hsc. eapply in_split_nl; eassumption.
+Qed.
+
+Theorem desc_ok_block_quotes o desc :
+  let lines := split_nl desc in
+  po_descriptions o = true -> desc <> [] ->
+  forallb qclean_line lines = true ->
+  forallb (fun l => Nat.leb (length l) 120) lines = true ->
+  hd [] lines <> [] -> last lines [] <> [] ->
+  (2 <= length lines \/ 70 <= length (hd [] lines) \/ ends_with_qb (hd [] lines) = true) ->
+  Forall SourceCharacter desc ->
+  desc_ok o (Some desc).
+Proof.
+  intros lines Hp Hne Hclean Hlen Hfirst Hlast Hblock Hsc.
+  assert (H : desc_okd o 0 (Some desc)).
+  { apply desc_okd_block_quotes; try assumption. rewrite ind0. reflexivity. }
+  exact H.
 Qed.
